@@ -784,7 +784,8 @@ Record CInv (st0 : dstate) (ms0 : list move) (p0 : pass) (ix : list (Z * Z)) (cs
   ci_keys : NoDup (map (fun m => (m_srcidx m, m_srcoff m)) new);
   ci_newtemps : forall s e, (length (d_table st0) <= s)%nat -> entry (cs_st cs) s = Some e -> u_temp e = true;
   ci_pass : pass_tracks p0 (cs_pass cs) new;
-  ci_within : pass_within (cs_pass cs)
+  ci_within : pass_within (cs_pass cs);
+  ci_len : length (d_table (cs_st cs)) = (length (d_table st0) + length new)%nat
 }.
 
 Lemma move_ok_ext st0 st st' ix m : ext st st' -> move_ok st0 st ix m -> move_ok st0 st' ix m.
@@ -798,11 +799,12 @@ Lemma cinv_set_st st0 ms0 p0 ix cs new st' :
   CInv st0 ms0 p0 ix cs new -> WF st' -> ext (cs_st cs) st' -> d_table st' = d_table (cs_st cs) ->
   CInv st0 ms0 p0 ix (cs_set_st cs st') new.
 Proof.
-  intros [A B C D (E1 & E2) F G H I] HW He Ht. constructor; cbn [cs_set_st cs_st cs_moves cs_pass]; auto.
+  intros [A B C D (E1 & E2) F G H I J] HW He Ht. constructor; cbn [cs_set_st cs_st cs_moves cs_pass]; auto.
   - eapply ext_trans; eauto.
   - eapply Forall_impl; [|exact D]. intros m. apply move_ok_ext; auto.
   - split; [exact E1|]. rewrite Ht. exact E2.
   - intros s e Hs Hen. apply (G s e Hs). unfold entry in *. rewrite <- Ht. exact Hen.
+  - rewrite Ht. exact J.
 Qed.
 
 Lemma cinv_set_pass st0 ms0 p0 ix cs new p1 :
@@ -811,7 +813,7 @@ Lemma cinv_set_pass st0 ms0 p0 ix cs new p1 :
   p_max_allocs p1 = p_max_allocs (cs_pass cs) ->
   CInv st0 ms0 p0 ix (cs_set_pass cs p1) new.
 Proof.
-  intros [A B C D E F G H I] H1 H2 H3. constructor; cbn [cs_set_pass cs_st cs_moves cs_pass]; auto.
+  intros [A B C D E F G H I J] H1 H2 H3. constructor; cbn [cs_set_pass cs_st cs_moves cs_pass]; auto.
   - unfold pass_tracks in *. rewrite H1, H2, H3. exact H.
   - unfold pass_within in *. rewrite H1, H2, H3. exact I.
 Qed.
@@ -854,7 +856,7 @@ Lemma commit_move_spec st0 ms0 p0 ix cs new st1 did t t2 slot e bi dstidx off :
   pass_running (cs_pass cs) -> (ps_bytes_moved (p_stats (cs_pass cs)) + u_size e <= p_max_bytes (cs_pass cs) /\ ps_allocs_moved (p_stats (cs_pass cs)) < p_max_allocs (cs_pass cs)) ->
   step_post st0 ms0 p0 ix bi (u_off e) new (commit_move cs (set_block st1 did t2) slot e bi dstidx did off).
 Proof.
-  intros [A B C D (E1 & E2) F G H I] Hent Htemp Hsrcix Hkeys HW1 Hext1 Htab1 Hfind HT2 Hg2 HI22 Hlive Hdstix Hfwd Hrun Hfit.
+  intros [A B C D (E1 & E2) F G H I J] Hent Htemp Hsrcix Hkeys HW1 Hext1 Htab1 Hfind HT2 Hg2 HI22 Hlive Hdstix Hfwd Hrun Hfit.
   destruct (wf_own _ A _ _ Hent) as (_ & Hpa & Hs1).
   unfold commit_move.
   destruct (increment_counters (cs_pass cs) (u_size e)) as [p' r] eqn:Hinc.
@@ -912,6 +914,7 @@ Proof.
       rewrite zlen_app, map_app, zsum_app. cbn [map zsum mv m_size]. unfold zlen at 2. cbn [length].
       repeat split; auto; lia.
     + exact Hw'.
+    + rewrite Hst2. cbn [d_table]. rewrite !app_length, Hlen1, J. cbn [length]. lia.
   - apply Forall_app. split.
     + eapply Forall_impl; [|exact Hkeys]. intros m [K|K]; [left; exact K|right; lia].
     + constructor; [|constructor]. right. cbn. lia.
@@ -1140,6 +1143,7 @@ Proof.
   - intros s e Hs He. apply entry_lt in He. lia.
   - unfold pass_tracks, zlen. cbn. repeat split; lia.
   - apply running_within. exact Hrun.
+  - cbn [length]. lia.
 Qed.
 
 Lemma collect_moves_inv st c p :
@@ -2983,6 +2987,514 @@ Proof.
   - intros s1 s2 e1 e2 He. unfold entry in He. cbn in He. destruct s1; discriminate.
 Qed.
 
+(* ================================================================== 11. a collecting pass never panics *)
+
+Definition live_handle (st : dstate) (id h : Z) : Prop := exists b, holds st id h b.
+
+Lemma get_move_data_total st id t h :
+  WF st -> find_id id (d_blocks st) = Some t -> live_handle st id h -> get_move_data st t h <> MDPanic.
+Proof.
+  intros HW Hf (b & Hh). pose proof Hh as (t' & Hf' & Hin & Ho). rewrite Hf in Hf'. injection Hf' as <-.
+  destruct (wb_tinv _ (wf_b _ HW) _ _ Hf) as (([Hgeo _ _ _] & _) & _).
+  destruct (live_in_chain _ _ Hin) as (Hc & Hfree).
+  pose proof (find_blk_unique _ _ _ (g_chain _ Hgeo) Hc) as Hfb. rewrite Ho in Hfb.
+  unfold get_move_data, get_user_data. rewrite Hfb, Hfree.
+  destruct (wf_owned _ HW _ _ _ Hh) as (s & e & He & Hb' & Ho').
+  destruct (wf_own _ HW _ _ He) as ((b' & Hh' & _ & Htok) & _).
+  rewrite Hb', Ho' in Hh'. pose proof (holdsb_fun _ _ _ _ _ (wf_b _ HW) Hh Hh') as <-.
+  destruct Htok as [Htok|(_ & Htok)]; rewrite Htok.
+  - assert (E1 : (Z.of_nat s =? ctx_tag) = false) by (apply Z.eqb_neq; unfold ctx_tag; lia).
+    assert (E2 : (Z.of_nat s <? 0) = false) by (apply Z.ltb_ge; lia).
+    rewrite E1, E2, Nat2Z.id. unfold entry in He.
+    destruct (nth_error (d_table st) s) as [[e0|]|]; try discriminate. destruct (u_temp e0); discriminate.
+  - rewrite Z.eqb_refl. discriminate.
+Qed.
+
+Lemma alloc_other_table st cands size align kind :
+  match alloc_other st cands size align kind with
+  | AOFound st' _ _ _ => d_table st' = d_table st
+  | AONone st' => d_table st' = d_table st
+  | AOPanic st' => d_table st' = d_table st
+  end.
+Proof.
+  revert st; induction cands as [|[idx id] rest IH]; intros st; cbn [alloc_other]; [reflexivity|].
+  destruct (find_id id (d_blocks st)); [|reflexivity].
+  destruct (may_have_free _ _ _); [|apply IH].
+  destruct (alloc_in _ _ _ _ _ _ _) as [t' off|t'|]; [reflexivity| |reflexivity].
+  specialize (IH (set_block st id t')). destruct (alloc_other (set_block st id t') rest size align kind); exact IH.
+Qed.
+
+Lemma alloc_other_nopanic st cands size align kind :
+  WF st -> pow2 align -> (forall i id, In (i, id) cands -> In id (map fst (d_blocks st))) ->
+  forall st', alloc_other st cands size align kind <> AOPanic st'.
+Proof.
+  intros HW Hpa. revert st HW. induction cands as [|[idx id] rest IH]; intros st HW Hids st'; cbn [alloc_other]; [discriminate|].
+  destruct (in_ids_find id (d_blocks st) (Hids idx id (or_introl eq_refl))) as (t & Hf). rewrite Hf.
+  assert (Hids' : forall i id0, In (i, id0) rest -> In id0 (map fst (d_blocks st))) by (intros i id0 Hin; eapply Hids; right; exact Hin).
+  destruct (wb_tinv _ (wf_b _ HW) _ _ Hf) as (HT & Hg & HI2).
+  destruct (may_have_free t kind size); [|apply IH; auto].
+  pose proof (alloc_in_spec t size align kind 0 max_int (tmp_tag st) HT Hg HI2 Hpa) as Hs.
+  destruct (alloc_in t size align kind 0 max_int (tmp_tag st)) as [t' off|t'|]; [discriminate| |destruct Hs].
+  subst t'. apply IH.
+  - eapply wf_set_same; eauto.
+  - intros i id0 Hin. cbn [set_block set_blocks d_blocks]. rewrite set_id_ids. eapply Hids'; eauto.
+Qed.
+
+(* at most one temporary is appended to the table by one visit *)
+Definition tab_ext (cs : cstate) (res : cstate * wres) : Prop :=
+  d_table (cs_st (fst res)) = d_table (cs_st cs) \/
+  exists etmp, u_temp etmp = true /\ d_table (cs_st (fst res)) = d_table (cs_st cs) ++ [Some etmp].
+
+Lemma commit_move_tab cs st' slot e bi dstidx did off :
+  d_table st' = d_table (cs_st cs) -> tab_ext cs (commit_move cs st' slot e bi dstidx did off).
+Proof.
+  intros Ht. unfold commit_move. destruct (increment_counters _ _) as [p' r]. right.
+  eexists. cbn [fst cs_st set_table d_table]. rewrite Ht. split; [|reflexivity]. reflexivity.
+Qed.
+
+Lemma lower_if_tab cs bi id h slot e : tab_ext cs (lower_if cs bi id h slot e).
+Proof.
+  unfold lower_if. destruct (find_id _ _); [|left; reflexivity].
+  destruct (_ && _); [|left; reflexivity]. unfold try_lower.
+  destruct (alloc_lower _ _ _ _ _ _); [apply commit_move_tab; reflexivity|left; reflexivity|left; reflexivity].
+Qed.
+
+Lemma handle_alloc_tab algo ix cs bi id h slot e : tab_ext cs (handle_alloc algo ix cs bi id h slot e).
+Proof.
+  unfold handle_alloc. destruct (algo =? 0); [apply lower_if_tab|].
+  pose proof (alloc_other_table (cs_st cs) (firstn (Z.to_nat bi) ix) (u_size e) (u_align e) (u_kind e)) as Ht.
+  destruct (algo =? 1).
+  - destruct (bi =? 0); [left; reflexivity|].
+    destruct (alloc_other _ _ _ _ _); [apply commit_move_tab; exact Ht|left; exact Ht|left; exact Ht].
+  - destruct (0 <? bi); [|apply lower_if_tab].
+    destruct (alloc_other _ _ _ _ _) as [st' idx did off|st'|st']; [apply commit_move_tab; exact Ht| |left; exact Ht].
+    destruct (lower_if_tab (cs_set_st cs st') bi id h slot e) as [E|(etmp & T & E)]; cbn [cs_set_st cs_st] in E.
+    + left. rewrite E. exact Ht.
+    + right. exists etmp. split; [exact T|]. rewrite E, Ht. reflexivity.
+Qed.
+
+Lemma visit_tab algo ix cs bi id h t :
+  find_id id (d_blocks (cs_st cs)) = Some t ->
+  match get_move_data (cs_st cs) t h with
+  | MDMove _ _ => tab_ext cs (visit algo ix cs bi id h)
+  | _ => d_table (cs_st (fst (visit algo ix cs bi id h))) = d_table (cs_st cs)
+  end.
+Proof.
+  intros Hf. unfold visit. rewrite Hf. destruct (get_move_data (cs_st cs) t h) as [| |slot e]; [reflexivity|reflexivity|].
+  destruct (check_counters _ _) as [p1 c0]. destruct c0; [|left; reflexivity|left; reflexivity].
+  exact (handle_alloc_tab algo ix (cs_set_pass cs p1) bi id h slot e).
+Qed.
+
+(* the only panic a visit can end in is the one of incrementCounters (excluded by step_post) *)
+Lemma commit_move_panic cs st' slot e bi dstidx did off w :
+  snd (commit_move cs st' slot e bi dstidx did off) = WPanic w -> w = PCounters.
+Proof.
+  unfold commit_move. destruct (increment_counters _ _) as [p' r]. cbn [snd].
+  destruct r; intros H; try discriminate. injection H as <-. reflexivity.
+Qed.
+
+Lemma lower_if_panic cs bi id h slot e w :
+  WF (cs_st cs) -> In id (map fst (d_blocks (cs_st cs))) -> pow2 (u_align e) -> 1 <= u_size e ->
+  snd (lower_if cs bi id h slot e) = WPanic w -> w = PCounters.
+Proof.
+  intros HW Hid Hpa Hs1. unfold lower_if.
+  destruct (in_ids_find _ _ Hid) as (t & Hf). rewrite Hf.
+  destruct (_ && _); [|discriminate]. unfold try_lower.
+  destruct (wb_tinv _ (wf_b _ HW) _ _ Hf) as (HT & Hg & HI2).
+  pose proof (alloc_lower_spec t (u_size e) (u_align e) (u_kind e) h (tmp_tag (cs_st cs)) HT Hg HI2 Hpa Hs1) as Hs.
+  destruct (alloc_lower _ _ _ _ _ _); [apply commit_move_panic|discriminate|destruct Hs].
+Qed.
+
+Lemma handle_alloc_panic algo ids cs bi id h slot e w :
+  WF (cs_st cs) -> map fst (d_blocks (cs_st cs)) = ids -> In (bi, id) (indexed_from 0 ids) ->
+  pow2 (u_align e) -> 1 <= u_size e ->
+  snd (handle_alloc algo (indexed_from 0 ids) cs bi id h slot e) = WPanic w -> w = PCounters.
+Proof.
+  intros HW Hids Hix Hpa Hs1.
+  assert (Hid : In id (map fst (d_blocks (cs_st cs)))) by (rewrite Hids; apply indexed_from_in in Hix; tauto).
+  assert (Hcands : forall i id0, In (i, id0) (firstn (Z.to_nat bi) (indexed_from 0 ids)) -> In id0 (map fst (d_blocks (cs_st cs)))).
+  { intros i id0 Hin. apply indexed_from_firstn in Hin. destruct Hin as (_ & Hin). apply indexed_from_in in Hin. rewrite Hids. tauto. }
+  unfold handle_alloc.
+  destruct (algo =? 0); [apply lower_if_panic; auto|].
+  pose proof (alloc_other_spec (cs_st cs) (firstn (Z.to_nat bi) (indexed_from 0 ids)) (u_size e) (u_align e) (u_kind e) HW Hpa) as Hsp.
+  pose proof (alloc_other_nopanic (cs_st cs) (firstn (Z.to_nat bi) (indexed_from 0 ids)) (u_size e) (u_align e) (u_kind e) HW Hpa Hcands) as Hnp.
+  destruct (algo =? 1).
+  - destruct (bi =? 0); [discriminate|].
+    destruct (alloc_other _ _ _ _ _) as [st' idx did off|st'|st']; [apply commit_move_panic|discriminate|exfalso; eapply Hnp; reflexivity].
+  - destruct (0 <? bi); [|apply lower_if_panic; auto].
+    destruct (alloc_other _ _ _ _ _) as [st' idx did off|st'|st']; [apply commit_move_panic| |exfalso; eapply Hnp; reflexivity].
+    destruct Hsp as (HW' & (He1 & _) & _). apply lower_if_panic; cbn [cs_set_st cs_st]; auto. rewrite He1. exact Hid.
+Qed.
+
+Lemma visit_panic algo ids cs bi id h w :
+  WF (cs_st cs) -> map fst (d_blocks (cs_st cs)) = ids -> In (bi, id) (indexed_from 0 ids) ->
+  live_handle (cs_st cs) id h ->
+  snd (visit algo (indexed_from 0 ids) cs bi id h) = WPanic w -> w = PCounters.
+Proof.
+  intros HW Hids Hix Hlive. unfold visit.
+  assert (Hid : In id (map fst (d_blocks (cs_st cs)))) by (rewrite Hids; apply indexed_from_in in Hix; tauto).
+  destruct (in_ids_find _ _ Hid) as (t & Hf). rewrite Hf.
+  pose proof (get_move_data_total _ _ _ _ HW Hf Hlive) as Hmd.
+  destruct (get_move_data (cs_st cs) t h) as [| |slot e] eqn:Hg; [congruence|discriminate|].
+  destruct (get_move_data_spec _ _ _ _ _ _ HW Hf Hg) as (Hent & _).
+  destruct (wf_own _ HW _ _ Hent) as (_ & Hpa & Hs1).
+  destruct (check_counters _ _) as [p1 c0]. destruct c0; [|discriminate|discriminate].
+  apply handle_alloc_panic; auto.
+Qed.
+
+(* ------------------------------------------------------------------ the fuel of a block walk suffices *)
+
+(* potential of the walk standing at handle h of block id: 2 per user allocation, 1 per temporary
+   of that block at or below h *)
+Definition wgt (id h : Z) (oe : option uent) : nat :=
+  match oe with
+  | Some e => if (u_blk e =? id) && (u_off e <=? h) then (if u_temp e then 1 else 2)%nat else O
+  | None => O
+  end.
+
+Fixpoint phi_tab (id h : Z) (tb : list (option uent)) : nat :=
+  match tb with [] => O | x :: r => (wgt id h x + phi_tab id h r)%nat end.
+
+Definition phi (st : dstate) (id h : Z) : nat := phi_tab id h (d_table st).
+
+Lemma wgt_le2 id h x : (wgt id h x <= 2)%nat.
+Proof. unfold wgt. destruct x as [e|]; [|lia]. destruct (_ && _); [|lia]. destruct (u_temp e); lia. Qed.
+
+Lemma phi_tab_le_len id h tb : (phi_tab id h tb <= 2 * length tb)%nat.
+Proof. induction tb as [|x r IH]; cbn [phi_tab length]; [lia|]. pose proof (wgt_le2 id h x). lia. Qed.
+
+Lemma phi_tab_app id h a b : phi_tab id h (a ++ b) = (phi_tab id h a + phi_tab id h b)%nat.
+Proof. induction a as [|x r IH]; cbn [phi_tab app]; [reflexivity|]. rewrite IH. lia. Qed.
+
+Lemma wgt_mono id h h' x : h' <= h -> (wgt id h' x <= wgt id h x)%nat.
+Proof.
+  intros Hle. unfold wgt. destruct x as [e|]; [|lia]. destruct (u_blk e =? id); cbn [andb]; [|lia].
+  destruct (u_off e <=? h') eqn:E1; [|lia]. apply Z.leb_le in E1.
+  destruct (u_off e <=? h) eqn:E2; [lia|]. apply Z.leb_gt in E2. lia.
+Qed.
+
+Lemma phi_tab_mono id h h' tb : h' <= h -> (phi_tab id h' tb <= phi_tab id h tb)%nat.
+Proof. intros Hle. induction tb as [|x r IH]; cbn [phi_tab]; [lia|]. pose proof (wgt_mono id h h' x Hle). lia. Qed.
+
+Lemma phi_tab_drop tb : forall s e id h h',
+  nth_error tb s = Some (Some e) -> u_blk e = id -> u_off e = h -> h' < h ->
+  (phi_tab id h' tb + (if u_temp e then 1 else 2) <= phi_tab id h tb)%nat.
+Proof.
+  induction tb as [|x r IH]; intros s e id h h' Hn Hb Ho Hlt; [destruct s; discriminate|].
+  destruct s as [|s]; cbn [nth_error phi_tab] in *.
+  - injection Hn as ->. pose proof (phi_tab_mono id h h' r ltac:(lia)).
+    unfold wgt. rewrite Hb, Z.eqb_refl. cbn [andb].
+    assert (E1 : (u_off e <=? h') = false) by (apply Z.leb_gt; lia).
+    assert (E2 : (u_off e <=? h) = true) by (apply Z.leb_le; lia).
+    rewrite E1, E2. lia.
+  - specialize (IH s e id h h' Hn Hb Ho Hlt). pose proof (wgt_mono id h h' x ltac:(lia)). lia.
+Qed.
+
+Lemma next_alloc_live t h h' : next_alloc t h = Some h' -> exists b, In b (live t) /\ b_off b = h'.
+Proof.
+  unfold next_alloc. intros H.
+  assert (Hin : In h' (iterate t)).
+  { generalize dependent (iterate t). intros l. induction l as [|x l IH]; cbn; [discriminate|].
+    destruct (x <? h); cbn; [intros H; injection H as <-; auto|intros H; right; auto]. }
+  rewrite tlsf_iteration_exact in Hin. apply in_rev in Hin. apply in_map_iff in Hin.
+  destruct Hin as (b & Hb & Hin). exists b. auto.
+Qed.
+
+Lemma walk_block_total st0 ms0 p0 ids algo fuel : forall cs new bi id h,
+  let ix := indexed_from 0 ids in
+  CInv st0 ms0 p0 ix cs new -> map fst (d_blocks st0) = ids -> In (bi, id) ix ->
+  Forall (key_above bi h) new -> pass_running (cs_pass cs) ->
+  live_handle (cs_st cs) id h -> (phi (cs_st cs) id h < fuel)%nat ->
+  forall w, snd (walk_block fuel algo ix cs bi id h) <> WPanic w.
+Proof.
+  induction fuel as [|f IH]; intros cs new bi id h ix HC Hids Hix Hkeys Hrun Hlive Hphi w; [lia|].
+  cbn [walk_block].
+  pose proof (ci_wf _ _ _ _ _ _ HC) as HW.
+  assert (Hidsc : map fst (d_blocks (cs_st cs)) = ids) by (rewrite <- Hids; apply (ci_ext _ _ _ _ _ _ HC)).
+  pose proof (visit_spec st0 ms0 p0 ids cs new algo bi id h HC Hix Hkeys Hrun) as Hv. fold ix in Hv.
+  pose proof (visit_panic algo ids cs bi id h) as Hvp. fold ix in Hvp.
+  assert (Hid : In id (map fst (d_blocks (cs_st cs)))) by (rewrite Hidsc; apply indexed_from_in in Hix; tauto).
+  destruct (in_ids_find _ _ Hid) as (t & Hf).
+  pose proof (visit_tab algo ix cs bi id h t Hf) as Htab.
+  destruct (visit algo ix cs bi id h) as [cs' r] eqn:Hvis.
+  destruct Hv as (add & HC' & Hk' & Hnp & Hrun'). cbn [fst snd] in *.
+  destruct r as [| |w0].
+  2:{ discriminate. }
+  2:{ intros H. injection H as ->. apply Hnp. rewrite (Hvp w HW Hidsc Hix Hlive eq_refl). reflexivity. }
+  pose proof (ci_wf _ _ _ _ _ _ HC') as HW'.
+  assert (Hidsc' : map fst (d_blocks (cs_st cs')) = ids) by (rewrite <- Hids; apply (ci_ext _ _ _ _ _ _ HC')).
+  assert (Hid' : In id (map fst (d_blocks (cs_st cs')))) by (rewrite Hidsc'; apply indexed_from_in in Hix; tauto).
+  destruct (in_ids_find _ _ Hid') as (t' & Hf'). rewrite Hf'.
+  destruct (next_alloc t' h) as [h'|] eqn:Hn; [|discriminate].
+  pose proof (next_alloc_lt _ _ _ Hn) as Hlt.
+  destruct (next_alloc_live _ _ _ Hn) as (b' & Hb'in & Hb'off).
+  assert (Hlive' : live_handle (cs_st cs') id h') by (exists b', t'; auto).
+  assert (Hk2 : Forall (key_above bi h') (new ++ add)).
+  { eapply Forall_impl; [|exact Hk']. intros m [K|K]; [left; exact K|right; lia]. }
+  assert (Hphi' : (phi (cs_st cs') id h' < f)%nat).
+  { destruct Hlive as (b & Hh). destruct (wf_owned _ HW _ _ _ Hh) as (s & e & He & Hb & Ho).
+    unfold phi in *.
+    destruct (get_move_data (cs_st cs) t h) as [| |slot e'] eqn:Hg.
+    - rewrite Htab. unfold entry in He. destruct (nth_error (d_table (cs_st cs)) s) as [[e0|]|] eqn:En; try discriminate.
+      injection He as ->. pose proof (phi_tab_drop _ _ _ _ _ _ En Hb Ho Hlt). destruct (u_temp e); lia.
+    - rewrite Htab. unfold entry in He. destruct (nth_error (d_table (cs_st cs)) s) as [[e0|]|] eqn:En; try discriminate.
+      injection He as ->. pose proof (phi_tab_drop _ _ _ _ _ _ En Hb Ho Hlt). destruct (u_temp e); lia.
+    - destruct (get_move_data_spec _ _ _ _ _ _ HW Hf Hg) as (Hent & Htemp & Hblk & Hoff).
+      unfold entry in Hent. destruct (nth_error (d_table (cs_st cs)) slot) as [[e0|]|] eqn:En; try discriminate.
+      injection Hent as ->.
+      destruct Htab as [E|(etmp & Tt & E)]; cbn [fst] in E; rewrite E.
+      + pose proof (phi_tab_drop _ _ _ _ _ _ En Hblk Hoff Hlt). rewrite Htemp in *. lia.
+      + assert (En' : nth_error (d_table (cs_st cs) ++ [Some etmp]) slot = Some (Some e')).
+        { rewrite nth_error_app1; [exact En|]. apply nth_error_Some. congruence. }
+        pose proof (phi_tab_drop _ _ _ _ _ _ En' Hblk Hoff Hlt) as Hd. rewrite Htemp in Hd.
+        rewrite !phi_tab_app in Hd. rewrite phi_tab_app. cbn [phi_tab] in Hd |- *.
+        assert (Hw1 : (wgt id h (Some etmp) <= 1)%nat).
+        { unfold wgt. destruct (_ && _); [rewrite Tt; lia|lia]. }
+        lia. }
+  exact (IH cs' (new ++ add) bi id h' HC' Hids Hix Hk2 (Hrun' eq_refl) Hlive' Hphi' w).
+Qed.
+
+Lemma cinv_new_le st0 ms0 p0 ids cs new :
+  CInv st0 ms0 p0 (indexed_from 0 ids) cs new -> NoDup ids -> (length new <= length (d_table st0))%nat.
+Proof.
+  intros HC Hnd. pose proof (ci_ok _ _ _ _ _ _ HC) as Hok. rewrite Forall_forall in Hok.
+  assert (Hsrc : NoDup (map m_src new)).
+  { eapply NoDup_map_coarser; [apply (ci_keys _ _ _ _ _ _ HC)|].
+    intros a b Ha Hb Hsrc.
+    destruct (Hok _ Ha) as [Ia _ _ (ea & A1 & _ & A3 & A4 & _) _ _].
+    destruct (Hok _ Hb) as [Ib _ _ (eb & B1 & _ & B3 & B4 & _) _ _].
+    rewrite Hsrc in A1. rewrite A1 in B1. injection B1 as <-.
+    assert (Hblk : m_srcblk a = m_srcblk b) by congruence.
+    assert (Hoff : m_srcoff a = m_srcoff b) by congruence.
+    rewrite Hblk in Ia. pose proof (indexed_from_id_fun _ _ _ _ _ Hnd Ia Ib). congruence. }
+  rewrite <- (map_length m_src new), <- (seq_length (length (d_table st0)) 0).
+  apply NoDup_incl_length; [exact Hsrc|]. intros s Hs. apply in_map_iff in Hs. destruct Hs as (m & <- & Hm).
+  destruct (Hok _ Hm) as [_ _ _ (es & E1 & _) _ _]. apply entry_lt in E1. apply in_seq. lia.
+Qed.
+
+Lemma list_begin_ok t : TInv t -> Inv2 t ->
+  match list_begin t with
+  | LBPanic => False
+  | LBSome h => exists b, In b (live t) /\ b_off b = h
+  | LBNone => True
+  end.
+Proof.
+  intros HT HI2. unfold list_begin. pose proof (i2_alloc _ HI2) as Hac.
+  destruct (t_alloc_count t =? 0) eqn:E; [exact I|]. apply Z.eqb_neq in E.
+  rewrite tlsf_iteration_exact. destruct (live t) as [|b0 l] eqn:Hl.
+  - unfold zlen in Hac. cbn in Hac. lia.
+  - destruct (rev (map b_off (b0 :: l))) as [|h r] eqn:Hr.
+    + apply (f_equal (@length Z)) in Hr. rewrite rev_length, map_length in Hr. cbn in Hr. lia.
+    + assert (Hin : In h (rev (map b_off (b0 :: l)))) by (rewrite Hr; left; reflexivity).
+      apply in_rev in Hin. apply in_map_iff in Hin. destruct Hin as (b & Hb & Hin). exists b. auto.
+Qed.
+
+Lemma walk_blocks_total st0 ms0 p0 ids algo srcs : forall cs new,
+  let ix := indexed_from 0 ids in
+  CInv st0 ms0 p0 ix cs new -> map fst (d_blocks st0) = ids -> NoDup ids ->
+  (forall x, In x srcs -> In x ix) -> idx_desc srcs ->
+  (forall m x, In m new -> In x srcs -> fst x < m_srcidx m) -> pass_running (cs_pass cs) ->
+  forall w, snd (walk_blocks (walk_fuel st0) algo ix cs srcs) <> WPanic w.
+Proof.
+  induction srcs as [|[bi id] rest IH]; intros cs new ix HC Hids Hnd Hin Hdesc Habove Hrun w; cbn [walk_blocks]; [discriminate|].
+  destruct (idx_desc_tail _ _ Hdesc) as (Hdesc' & Hlt).
+  assert (Hix : In (bi, id) ix) by (apply Hin; left; reflexivity).
+  assert (Hin' : forall x, In x rest -> In x ix) by (intros x Hx; apply Hin; right; exact Hx).
+  pose proof (ci_wf _ _ _ _ _ _ HC) as HW.
+  assert (Hidsc : map fst (d_blocks (cs_st cs)) = ids) by (rewrite <- Hids; apply (ci_ext _ _ _ _ _ _ HC)).
+  assert (Hid : In id (map fst (d_blocks (cs_st cs)))) by (rewrite Hidsc; apply indexed_from_in in Hix; tauto).
+  destruct (in_ids_find _ _ Hid) as (t & Hf). rewrite Hf.
+  destruct (wb_tinv _ (wf_b _ HW) _ _ Hf) as (HT & _ & HI2).
+  pose proof (list_begin_ok t HT HI2) as Hlb.
+  destruct (list_begin t) as [|h|]; [| |destruct Hlb].
+  - apply (IH cs new); auto. intros m x Hm Hx. apply Habove; [exact Hm|right; exact Hx].
+  - destruct Hlb as (b & Hbin & Hboff).
+    assert (Hlive : live_handle (cs_st cs) id h) by (exists b, t; auto).
+    assert (Hk : Forall (key_above bi h) new).
+    { apply Forall_forall. intros m Hm. left. apply (Habove m (bi, id) Hm). left. reflexivity. }
+    assert (Hphi : (phi (cs_st cs) id h < walk_fuel st0)%nat).
+    { unfold phi, walk_fuel. pose proof (phi_tab_le_len id h (d_table (cs_st cs))) as H1.
+      pose proof (ci_len _ _ _ _ _ _ HC) as H2. pose proof (cinv_new_le _ _ _ _ _ _ HC Hnd) as H3. lia. }
+    pose proof (walk_block_total st0 ms0 p0 ids algo (walk_fuel st0) cs new bi id h HC Hids Hix Hk Hrun Hlive Hphi) as Hnp.
+    destruct (walk_block_spec st0 ms0 p0 ids algo (walk_fuel st0) cs new bi id h HC Hix Hk Hrun) as (add & R1 & R2 & R3 & R4).
+    fold ix in Hnp, R1, R2, R3, R4.
+    destruct (walk_block (walk_fuel st0) algo ix cs bi id h) as [cs' r] eqn:Hwb. cbn [fst snd] in *.
+    destruct r as [| |w0]; [|discriminate|intros H; injection H as ->; exact (Hnp w eq_refl)].
+    assert (Habove' : forall m x, In m (new ++ add) -> In x rest -> fst x < m_srcidx m).
+    { intros m x Hm Hx. rewrite Forall_forall in R2. specialize (R2 _ Hm). specialize (Hlt _ Hx). cbn in Hlt. lia. }
+    exact (IH cs' (new ++ add) R1 Hids Hnd Hin' Hdesc' Habove' (R4 eq_refl) w).
+Qed.
+
+(* C13/C15: BlockListCollectMoves never panics: not in incrementCounters, not on an unexpected
+   answer of the metadata or the block list, and the model's fuel always suffices *)
+Theorem collect_never_panics st c mb ma :
+  WF st -> c_moves c = [] -> 0 <= ma -> 0 <= mb -> (c_algo c = 1 \/ c_algo c = 2) ->
+  forall w, snd (collect_moves st c (pass_init mb ma)) <> WPanic w.
+Proof.
+  intros HW Hfresh Hma Hmb Halgo w. unfold collect_moves. rewrite Hfresh.
+  set (cs0 := mkCS st [] (pass_init mb ma)).
+  pose proof (cinv_init st [] (pass_init mb ma) (indexed st) HW (pass_init_running mb ma Hmb Hma)) as HC0. fold cs0 in HC0.
+  assert (Hwalk : forall algo, snd (walk_blocks (walk_fuel st) algo (indexed st) cs0
+                                      (rev (skipn (Z.to_nat (c_immovable c)) (indexed st)))) <> WPanic w).
+  { intros algo. unfold indexed in *.
+    apply (walk_blocks_total st [] (pass_init mb ma) (map fst (d_blocks st)) algo _ cs0 [] HC0 eq_refl (wb_ids _ (wf_b _ HW))).
+    - intros x. apply srcs_in.
+    - apply srcs_desc.
+    - intros m x [].
+    - apply pass_init_running; auto. }
+  destruct (1 <? zlen (d_blocks st)).
+  - destruct Halgo as [-> | ->]; cbn [Z.eqb Pos.eqb]; apply Hwalk.
+  - destruct (_ && _); [apply Hwalk|discriminate].
+Qed.
+
+Lemma complete_pass_algo st c p ds ord : c_algo (r_ctx (complete_pass st c p ds ord)) = c_algo c.
+Proof.
+  unfold complete_pass. destruct (complete_moves _ _ _) as [cp [|]]; [reflexivity|].
+  destruct (swap_all _ _ _ _) as [[bl immc] sws]. reflexivity.
+Qed.
+
+(* an undisturbed pass always completes *)
+Lemma one_pass_total st c mb ma ds ord :
+  WF st -> c_moves c = [] -> 0 <= ma -> 0 <= mb -> (c_algo c = 1 \/ c_algo c = 2) ->
+  exists st' c' p' ms, one_pass st c mb ma ds ord = Some (st', c', p', ms) /\ c_algo c' = c_algo c.
+Proof.
+  intros HW Hfresh Hma Hmb Halgo. unfold one_pass.
+  pose proof (collect_never_panics st c mb ma HW Hfresh Hma Hmb Halgo) as Hnp.
+  destruct (collect_moves st c (pass_init mb ma)) as [cs r] eqn:Hcol. cbn [snd] in Hnp.
+  pose proof (sources_are_user_allocs_once st c mb ma HW Hma Hmb Hfresh) as Hsrc. rewrite Hcol in Hsrc. cbn [fst] in Hsrc.
+  destruct Hsrc as (_ & Hnds & Hndt & Hcross).
+  pose proof (collect_reserves st c mb ma HW Hma Hmb Hfresh) as Hres. rewrite Hcol in Hres. cbn [fst] in Hres.
+  destruct Hres as (HWc & _ & Hres).
+  set (c1 := mkC (c_algo c) (cs_moves cs) (c_immovable c)).
+  assert (Hnd : NoDup (map m_src (c_moves c1) ++ map m_tmp (c_moves c1))).
+  { cbn [c1 c_moves]. apply NoDup_app_intro; auto.
+    intros x Hx1 Hx2. apply in_map_iff in Hx1. destruct Hx1 as (m1 & <- & H1).
+    apply in_map_iff in Hx2. destruct Hx2 as (m2 & E & H2). apply (Hcross m1 m2 H1 H2). symmetry. exact E. }
+  pose proof (complete_pass_ok (cs_st cs) c1 (cs_pass cs) ds ord HWc Hres Hnd) as Hk.
+  pose proof (complete_pass_algo (cs_st cs) c1 (cs_pass cs) ds ord) as Ha.
+  destruct r as [| |w]; [| |exfalso; exact (Hnp w eq_refl)]; rewrite Hk; do 4 eexists; (split; [reflexivity|exact Ha]).
+Qed.
+
+(* C15 (7), full strength: an undisturbed run with arbitrary decisions never fails and never runs
+   out of passes: it reaches a pass that proposes nothing, and the block list invariant holds in
+   the final state *)
+Lemma run_any_inv fuel : forall st c mb ma dec acc n log,
+  WF st -> c_moves c = [] -> 0 <= c_immovable c -> 0 <= ma -> 0 <= mb -> (c_algo c = 1 \/ c_algo c = 2) ->
+  match run_any fuel st c mb ma dec acc n log with
+  | RunDone st' _ _ _ => WF st'
+  | RunFailed => False
+  | RunOutOfFuel => True
+  end.
+Proof.
+  induction fuel as [|f IH]; intros st c mb ma dec acc n log HW Hfresh Himm Hma Hmb Halgo; cbn [run_any]; [exact I|].
+  unfold one_pass_with.
+  set (ds := fst (dec n (cs_moves (fst (collect_moves st c (pass_init mb ma)))))).
+  set (ord := snd (dec n (cs_moves (fst (collect_moves st c (pass_init mb ma)))))).
+  destruct (one_pass_total st c mb ma ds ord HW Hfresh Hma Hmb Halgo) as (st' & c' & p' & ms & Hp & Ha). rewrite Hp.
+  destruct (one_pass_spec _ _ _ _ _ _ _ _ _ _ HW Hfresh Himm Hma Hmb Hp) as (HW' & Hfresh' & _ & Himm' & _).
+  destruct ms as [|m r]; [exact HW'|]. apply IH; auto. rewrite Ha. exact Halgo.
+Qed.
+
+Theorem run_completes st c mb ma dec acc n log :
+  WF st -> c_moves c = [] -> 0 <= c_immovable c -> 0 <= ma -> 0 <= mb -> (c_algo c = 1 \/ c_algo c = 2) ->
+  exists fuel st' k acc' log', run_any fuel st c mb ma dec acc n log = RunDone st' k acc' log' /\ WF st'.
+Proof.
+  intros HW Hfresh Himm Hma Hmb Halgo.
+  destruct (run_terminates st c mb ma dec acc n log HW Hfresh Himm Hma Hmb) as (fuel & Hf).
+  pose proof (run_any_inv fuel st c mb ma dec acc n log HW Hfresh Himm Hma Hmb Halgo) as Hi.
+  destruct (run_any fuel st c mb ma dec acc n log) as [st' k acc' log'| |] eqn:E; [|destruct Hi|congruence].
+  exists fuel, st', k, acc', log'. split; [exact E|exact Hi].
+Qed.
+
+(* ------------------------------------------------------------------ no operation of a history panics *)
+
+Definition algo_ok (w : world) : Prop := forall c, w_ctx w = Some c -> c_algo c = 1 \/ c_algo c = 2.
+
+Lemma wstep_algo w o : algo_ok w -> algo_ok (fst (wstep w o)).
+Proof.
+  intros Ha. unfold wstep. destruct (w_dead w); [exact Ha|].
+  destruct o as [id size align kind tag|slot|algo mb ma reuse| |ds ord|].
+  - destruct (user_alloc _ _ _ _ _ _) as [st' r]. destruct r; exact Ha.
+  - destruct (slot <? 0); [exact Ha|]. destruct (entry _ _) as [e|]; [|exact Ha].
+    destruct (u_temp e); [exact Ha|]. destruct (existsb _ _); [exact Ha|].
+    destruct (free_slot _ _) as [st' k]. destruct k; exact Ha.
+  - destruct (w_open w); [exact Ha|]. destruct ((algo <? 0) || (2 <? algo)) eqn:E; [exact Ha|].
+    apply orb_false_elim in E. destruct E as (E1 & E2). apply Z.ltb_ge in E1, E2.
+    cbv zeta. cbn [fst]. intros c Hc. cbn [w_ctx] in Hc. injection Hc as <-.
+    assert (Hi : forall c0, c_algo (ctx_init c0 algo) = 1 \/ c_algo (ctx_init c0 algo) = 2).
+    { intros c0. cbn [ctx_init c_algo]. destruct (algo =? 0) eqn:E0; [right; reflexivity|]. apply Z.eqb_neq in E0. lia. }
+    destruct (w_ctx w) as [c0|]; [destruct (reuse =? 1)|]; apply Hi.
+  - destruct (w_begun w); cbn [negb]; [|exact Ha]. destruct (w_open w); [exact Ha|].
+    destruct (w_ctx w) as [c|] eqn:Hc; [|exact Ha].
+    destruct (collect_moves _ _ _) as [cs r]. destruct r; cbn [fst]; try exact Ha.
+    all: intros c' Hc'; cbn [w_ctx] in Hc'; injection Hc' as <-; cbn [c_algo]; exact (Ha c Hc).
+  - destruct (w_ctx w) as [c|] eqn:Hc; [|exact Ha]. destruct (w_pass w) as [p|]; [|exact Ha].
+    destruct (w_open w); cbn [negb]; [|exact Ha].
+    destruct (r_kind (complete_pass (w_st w) c p ds ord)); cbn [fst]; try exact Ha.
+    all: intros c' Hc'; cbn [w_ctx] in Hc'; injection Hc' as <-; rewrite complete_pass_algo; exact (Ha c Hc).
+  - exact Ha.
+Qed.
+
+Lemma user_alloc_never_panics st id size align kind tag :
+  WF st -> snd (user_alloc st id size align kind tag) <> UPanic.
+Proof.
+  intros HW. unfold user_alloc. destruct (find_id id (d_blocks st)) as [t|] eqn:Hf; [|discriminate].
+  destruct (negb (is_pow2 align) || (kind <? 0) || (tag <? 0)) eqn:Hchk; [discriminate|].
+  apply orb_false_elim in Hchk. destruct Hchk as (Hchk & _). apply orb_false_elim in Hchk. destruct Hchk as (Hp & _).
+  apply negb_false_iff in Hp. apply is_pow2_sound in Hp.
+  destruct (wb_tinv _ (wf_b _ HW) _ _ Hf) as (HT & Hg & HI2).
+  pose proof (create_request_ok t size align false kind 0 max_int HT HI2 Hp) as Hok.
+  destruct (create_request t size align false kind 0 max_int) as [t1 r1| | |] eqn:Hcr; try discriminate; [|destruct Hok].
+  destruct (request_alloc_spec _ _ _ _ _ _ (Some (Z.of_nat (length (d_table st)))) _ _ HT HI2 Hp Hcr)
+    as (_ & _ & _ & _ & _ & _ & _ & _ & _ & t2 & h & Hal & _).
+  rewrite Hal. discriminate.
+Qed.
+
+Lemma free_slot_never_panics st s : WF st -> snd (free_slot st s) <> RPanic.
+Proof.
+  intros HW. destruct (entry st s) as [e|] eqn:He.
+  - destruct (free_slot_succeeds _ _ _ HW He) as (st' & E). rewrite E. discriminate.
+  - unfold free_slot. rewrite He. discriminate.
+Qed.
+
+(* C13 at this level: along a history of the harness protocol nothing ever panics *)
+Theorem wstep_never_dies w o :
+  WInv w -> algo_ok w -> w_dead w = false -> w_dead (fst (wstep w o)) = false.
+Proof.
+  intros [HW Hctx] Ha Hdead. unfold wstep. rewrite Hdead.
+  destruct o as [id size align kind tag|slot|algo mb ma reuse| |ds ord|].
+  - pose proof (user_alloc_never_panics (w_st w) id size align kind tag HW) as Hnp.
+    destruct (user_alloc _ _ _ _ _ _) as [st' r]. destruct r; cbn [fst w_set_st w_dead]; auto. cbn in Hnp. congruence.
+  - destruct (slot <? 0); [exact Hdead|]. destruct (entry _ _) as [e|]; [|exact Hdead].
+    destruct (u_temp e); [exact Hdead|]. destruct (existsb _ _); [exact Hdead|].
+    pose proof (free_slot_never_panics (w_st w) (Z.to_nat slot) HW) as Hnp.
+    destruct (free_slot _ _) as [st' k]. destruct k; cbn [fst w_set_st w_dead]; auto. cbn in Hnp. congruence.
+  - destruct (w_open w); [exact Hdead|]. destruct (_ || _); [exact Hdead|]. reflexivity.
+  - destruct (w_begun w); cbn [negb]; [|exact Hdead]. destruct (w_open w) eqn:Ho; [exact Hdead|].
+    destruct (w_ctx w) as [c|] eqn:Hc; [|exact Hdead].
+    destruct (Hctx c eq_refl) as (A & B & _). specialize (B eq_refl).
+    pose proof (collect_never_panics (w_st w) c (lim (w_max_bytes w)) (lim (w_max_allocs w)) HW B
+                  (lim_ge0 _) (lim_ge0 _) (Ha c Hc)) as Hnp.
+    destruct (collect_moves _ _ _) as [cs r]. destruct r; cbn [fst w_dead]; auto. exfalso. exact (Hnp why eq_refl).
+  - destruct (w_ctx w) as [c|] eqn:Hc; [|exact Hdead]. destruct (w_pass w) as [p|]; [|exact Hdead].
+    destruct (w_open w) eqn:Ho; cbn [negb]; [|exact Hdead].
+    destruct (Hctx c eq_refl) as (_ & _ & C). destruct (C eq_refl) as (C1 & C2).
+    rewrite (complete_pass_ok _ _ p ds ord HW C1 C2). reflexivity.
+  - exact Hdead.
+Qed.
+
+(* C07 + C13 along arbitrary histories: the invariant is kept and nothing panics *)
+Theorem wstep_safe w o :
+  WInv w -> algo_ok w -> w_dead w = false ->
+  WInv (fst (wstep w o)) /\ algo_ok (fst (wstep w o)) /\ w_dead (fst (wstep w o)) = false.
+Proof.
+  intros HI Ha Hd. pose proof (wstep_never_dies w o HI Ha Hd) as Hd'.
+  split; [apply wstep_preserves; auto|]. split; [apply wstep_algo; auto|exact Hd'].
+Qed.
+
+Lemma world_init_algo sizes sentinel : algo_ok (world_init sizes sentinel).
+Proof. intros c H. discriminate H. Qed.
+
 Lemma dstate_init_wf sizes sentinel : Forall (fun s => 1 <= s < 2 ^ 39) sizes -> WF (dstate_init sizes sentinel).
 Proof. intros H. exact (wi_wf _ (world_init_inv sizes sentinel H)). Qed.
 
@@ -3096,19 +3608,12 @@ Lemma freed_stats_follow_allocation_counts_example :
 Proof. vm_compute. auto. Qed.
 
 (* ------------------------------------------------------------------
-   OPEN (not proved here):
-   - a collecting pass never panics: WPanic PCounters is excluded (collect_within_limits), the
-     handler side is closed (complete_pass_ok: every Free / SetAllocationUserData the handler
-     issues succeeds, by the second TLSF invariant Inv2 which WF now carries for every block).
-     Still open on the collect side: (1) WPanic PMeta is unreachable (the ingredients are here:
-     alloc_in_spec / alloc_lower_spec exclude AIPanic, get_move_data on a live handle resolves;
-     what is missing is threading "h is a live handle of the block" through the walk lemmas);
-     (2) fuel sufficiency of walk_block (walk_fuel = 2 * #allocation objects + 2 always
-     suffices: each visit is a distinct allocation object of the block and a pass at most adds
-     one temporary per source).  Both are validated by the differential runs only (an exhausted
-     fuel or a metadata panic would print `R panic`).  Therefore run_terminates / one_pass still
-     have the outcome RunFailed / None for a collect that panics; a completing pass can no longer
-     fail.
+   OPEN: nothing.  The former open items are closed with the second TLSF invariant (Inv2, carried
+   by WF for every block): collect_never_panics (no counter panic, no metadata / block-list
+   surprise, walk_fuel always suffices), complete_pass_ok (no handler call fails),
+   run_completes (an undisturbed run with any decisions ends in RunDone), wstep_safe (no
+   operation of an arbitrary history of the harness protocol panics and the invariant is kept).
+   Domain: block sizes 1 <= size < 2^39 (the TLSF bitmap bound, TlsfStep2.cfg2_ok), granularity 1.
    ------------------------------------------------------------------ *)
 
 Print Assumptions collect_within_limits.
@@ -3121,6 +3626,9 @@ Print Assumptions complete_pass_wf.
 Print Assumptions complete_pass_ok.
 Print Assumptions run_terminates_copy_only.
 Print Assumptions run_terminates.
+Print Assumptions collect_never_panics.
+Print Assumptions run_completes.
+Print Assumptions wstep_safe.
 Print Assumptions run_stats_accumulate.
 Print Assumptions wstep_preserves.
 Print Assumptions world_init_inv.
